@@ -59,6 +59,14 @@ type caseData struct {
 	// NoPosLines are the reference lines of the panics whose position is not judged
 	// (open finding: nil pointer dereference).
 	NoPosLines []int `json:"no_pos_lines,omitempty"`
+	// NoPosPrefixes: panics whose message starts with one of these are raised
+	// directly by a deferred builtin or native call; gc attributes them to the end of
+	// the function, so their line is never judged, and while finding C12-F8 is open
+	// their path is not judged either (PathFree).
+	NoPosPrefixes []string `json:"no_pos_prefixes,omitempty"`
+	PathFree      bool     `json:"path_free,omitempty"`
+	// AllowGo: build with BuildOptions.AllowGoStmt.
+	AllowGo bool `json:"allow_go,omitempty"`
 	// CheckOut: the output of the template run must end with OutSuffix and contain
 	// none of OutForbid (text that follows the Stop/Fatal/panic point).
 	CheckOut  bool     `json:"check_out,omitempty"`
@@ -70,6 +78,7 @@ const (
 	scopeDerefPos     = "position of a nil pointer dereference panic"
 	scopeDeferFuncVar = "deferred call of a function value held in a captured variable"
 	scopeTwoRecovered = "two or more recovered panics still active when the program ends"
+	scopeDeferredCall = "position of a panic raised directly by a deferred builtin or native call"
 )
 
 func (prop) Drive(d *core.Driver) error {
@@ -90,6 +99,8 @@ func (prop) Drive(d *core.Driver) error {
 	opts := fp.NestOpts{NativeEscape: true, NoDeferFuncVar: d.InScope(scopeDeferFuncVar)}
 	skipDerefPos := d.InScope(scopeDerefPos)
 	skipTwoRecovered := d.InScope(scopeTwoRecovered)
+	pathFree := d.InScope(scopeDeferredCall)
+	deferredPrefixes := []string{"dp", "deferred native "}
 	scopedOut := 0
 	var nests []fp.Nest
 	var gcSrcs []string
@@ -135,10 +146,10 @@ func (prop) Drive(d *core.Driver) error {
 		if skipDerefPos {
 			noPos = n.DerefLines
 		}
-		cases = append(cases, core.NewCase(fmt.Sprintf("prog-%d", i), caseData{Kind: "prog", Label: fmt.Sprintf("nest %d", i), Src: n.Src, Expect: exp, NoPosLines: noPos}))
+		cases = append(cases, core.NewCase(fmt.Sprintf("prog-%d", i), caseData{Kind: "prog", Label: fmt.Sprintf("nest %d", i), Src: n.Src, Expect: exp, NoPosLines: noPos, NoPosPrefixes: deferredPrefixes, PathFree: pathFree}))
 		if n.Tmpl != "" {
 			cases = append(cases, core.NewCase(fmt.Sprintf("tmpl-%d", i), caseData{Kind: "tmpl", Label: fmt.Sprintf("nest %d as template", i),
-				Files: map[string]string{"index.html": n.Tmpl}, Main: "index.html", Expect: exp, LineOffset: n.TmplOffset, NoPosLines: noPos}))
+				Files: map[string]string{"index.html": n.Tmpl}, Main: "index.html", Expect: exp, LineOffset: n.TmplOffset, NoPosLines: noPos, NoPosPrefixes: deferredPrefixes, PathFree: pathFree}))
 		}
 	}
 	sc := scenarios(d.Rand("scenarios"), d.N(6, 60))
@@ -321,7 +332,7 @@ func (prop) Work(c core.Case) core.Result {
 		var prog *scriggo.Program
 		var berr error
 		bpv, bp, bst := core.Guard(func() {
-			prog, berr = scriggo.Build(scriggo.Files{"main.go": []byte(cd.Src)}, &scriggo.BuildOptions{Packages: fp.Packages(log)})
+			prog, berr = scriggo.Build(scriggo.Files{"main.go": []byte(cd.Src)}, &scriggo.BuildOptions{Packages: fp.Packages(log), AllowGoStmt: cd.AllowGo})
 		})
 		if bp {
 			return core.Result{Status: core.Skip, Detail: fmt.Sprintf("Build panicked (C04 domain): %v\n%s", bpv, bst), Counts: map[string]int64{"build_panics": 1}}
@@ -473,6 +484,20 @@ func (prop) Work(c core.Case) core.Result {
 				res.Counts["positions_not_judged"]++
 				flags += "?"
 				continue
+			}
+			deferredCall := false
+			for _, pre := range cd.NoPosPrefixes {
+				if strings.HasPrefix(w.Text, pre) {
+					deferredCall = true
+				}
+			}
+			if deferredCall {
+				res.Counts["deferred_call_panics"]++
+				if cd.PathFree || g.Path == "main" || g.Path == "main.go" || g.Path == cd.Main {
+					flags += "d"
+					continue
+				}
+				return fail("chain entry %d (%q, raised by a deferred call): Path()=%q, want the file of the function", i, g.Text, g.Path)
 			}
 			if exp.LinesOK && w.Line > 0 && g.Line != w.Line+cd.LineOffset {
 				return fail("chain entry %d (%q): Position().Line=%d, want %d (the statement that raised it); chain %+v", i, g.Text, g.Line, w.Line+cd.LineOffset, ents)
